@@ -17,14 +17,26 @@ Fixpoint up_of (t : list (string * option purl)) (u : string) : option purl :=
   | (u', r) :: rest => if String.eqb u u' then r else up_of rest u
   end.
 
+(* one end-session request: the router it is sent to, the issuer the provider derives
+   for it (static, or from Host / Forwarded), the presented hint, the parameters *)
+Record ereq := { r_router : router; r_issuer : string; r_tok : tok;
+                 r_client : string; r_uri : string; r_state : string; r_fault : efault }.
+
+Definition to_esreq (x : ereq) : esreq :=
+  {| e_hint := classify (r_issuer x) (r_tok x); e_client := r_client x; e_uri := r_uri x;
+     e_state := r_state x; e_fault := r_fault x |}.
+
+(* a sequence of requests to ONE provider instance *)
 Inductive input :=
-| IEnd (r : router) (default_uri : string) (cs : list lclient) (t : tables) (q : esreq).
+| IEnd (default_uri : string) (cs : list lclient) (t : tables) (reqs : list ereq).
 
-Inductive observed := OEnd (x : eout).
+Inductive observed := OEnd (xs : list eout).
 
+(* each answer depends on its own request only *)
 Definition model (i : input) : observed :=
   match i with
-  | IEnd r d cs t q => OEnd (end_session (pm_of (t_pm t)) (up_of (t_up t)) d cs r q)
+  | IEnd d cs t reqs =>
+      OEnd (map (fun x => end_session (pm_of (t_pm t)) (up_of (t_up t)) d cs (r_router x) (to_esreq x)) reqs)
   end.
 
 (* ------------------------------------------------------------------ property *)
@@ -117,9 +129,16 @@ Section Spec.
     end.
 End Spec.
 
+Fixpoint spec_list (f : esreq -> eout -> bool) (reqs : list ereq) (outs : list eout) : bool :=
+  match reqs, outs with
+  | [], [] => true
+  | x :: reqs', o :: outs' => f (to_esreq x) o && spec_list f reqs' outs'
+  | _, _ => false
+  end.
+
 Definition spec (i : input) (o : observed) : bool :=
   match i, o with
-  | IEnd r d cs t q, OEnd x => spec_out (pm_of (t_pm t)) (up_of (t_up t)) d cs q x
+  | IEnd d cs t reqs, OEnd outs => spec_list (spec_out (pm_of (t_pm t)) (up_of (t_up t)) d cs) reqs outs
   end.
 
 Definition pair_eqb (a b : string * string) : bool :=
@@ -134,27 +153,33 @@ Definition eout_eqb (a b : eout) : bool :=
   end.
 
 Definition obs_eqb (a b : observed) : bool :=
-  match a, b with OEnd x, OEnd y => eout_eqb x y end.
+  match a, b with OEnd x, OEnd y => list_eqb eout_eqb x y end.
 
-(* decision-path class; 0 = hint rejected at the first guard *)
-Definition path (i : input) (o : observed) : nat :=
-  match i, o with
-  | IEnd r d cs t q, OEnd x =>
-      match x with
-      | ERedirect _ _ =>
-          1 + (if String.eqb (e_state q) "" then 0 else 1)
-            + (if String.eqb (e_uri q) "" then 0 else 2)
-            + (match e_hint q with HNone => 0 | HGood false _ _ => 4 | _ => 8 end)
-      | EPage _ c term =>
-          match e_hint q with
-          | HBad => 0
-          | _ => 13 + (if String.eqb c "server_error" then 1 else 0)
-                    + (match term with Some _ => 2 | None => 0 end)
-                    + (if contradicts q then 4 else 0)
-          end
-      | _ => 20
+(* decision-path class of one answer; 0 = hint rejected at the first guard *)
+Definition path1 (q : esreq) (x : eout) : nat :=
+  match x with
+  | ERedirect _ _ =>
+      1 + (if String.eqb (e_state q) "" then 0 else 1)
+        + (if String.eqb (e_uri q) "" then 0 else 2)
+        + (match e_hint q with HNone => 0 | HGood false _ _ => 4 | _ => 8 end)
+  | EPage _ c term =>
+      match e_hint q with
+      | HBad => 0
+      | _ => 13 + (if String.eqb c "server_error" then 1 else 0)
+                + (match term with Some _ => 2 | None => 0 end)
+                + (if contradicts q then 4 else 0)
       end
+  | _ => 20
   end.
+
+Fixpoint path_list (reqs : list ereq) (outs : list eout) : nat :=
+  match reqs, outs with
+  | x :: reqs', o :: outs' => path1 (to_esreq x) o + path_list reqs' outs'
+  | _, _ => 0
+  end.
+
+Definition path (i : input) (o : observed) : nat :=
+  match i, o with IEnd _ _ _ reqs, OEnd outs => path_list reqs outs end.
 
 Definition case_mismatches := run_mismatches model obs_eqb.
 Definition case_violations := run_violations spec.
